@@ -9,15 +9,47 @@ META = dict(
     category='model_checking',
     engine='GitSync',
     technique='TLA+ spec GitSync (state machine JjSet/JjDelete/GitSet/GitDelete/Import/Export over local bookmark, last-seen git ref, @git ref, actual Git ref): TLC exhaustive reachability with step contracts + TLC-generated behaviours replayed on a Git-backed repo with the real git CLI (S->I) + seeded random histories recorded and judged by TLC (I->S)',
-    text='TLC explores every reachable state of the model (2 bookmarks, chain+fork of 3 commits quick / 4 commits thorough, one commit initially unknown to jj, unbounded depth) and checks on every transition the contracts ImportOK (one-sided Git change propagates incl. deletion, same change on both sides is kept, two-sided change loses no side: same signed multiset or fast-forward), ExportOK (a ref changed in Git since jj last saw it is never overwritten, one-sided jj change reaches Git, failures are reported exactly), Import;Export convergence and import idempotence. The real import_refs/export_refs are then bound both ways: every transition of a small model (1 bookmark, depth 5 quick / 6 thorough, plus 2 bookmarks depth 4 thorough) and TLC-simulated 6-step behaviours are replayed with Git-side edits done by the real `git update-ref`, and seeded random histories (3 bookmarks, 5 commits, up to 10 steps, git.abandon-unreachable-commits on and off) are recorded; TLC judges every observed step against the same contracts from the observed pre-state. Exhaustive on the model, sampled on longer histories.',
+    text='TLC explores every reachable state of the model (2 bookmarks, chain+fork of 3 commits quick / 4 commits thorough, one commit initially unknown to jj, unbounded depth) and checks on every transition the contracts ImportOK (one-sided Git change propagates incl. deletion, same change on both sides is kept, two-sided change loses no side: same signed multiset, or a fast-forward relative to the base: base <= dropped side <= kept side), ExportOK (a ref changed in Git since jj last saw it is never overwritten, one-sided jj change reaches Git, failures are reported exactly), Import;Export convergence and import idempotence. The real import_refs/export_refs are then bound both ways: scripted middle-of-chain races at the start of every run, every transition of a small model (1 bookmark, chain of 3 + fork, depth 5 quick / 6 thorough, plus 2 bookmarks depth 4 thorough) and TLC-simulated 6-step behaviours are replayed with Git-side edits done by the real `git update-ref`, and seeded random histories (3 bookmarks, 5 commits, up to 10 steps, git.abandon-unreachable-commits on and off) are recorded; TLC judges every observed step against the same contracts from the observed pre-state. Exhaustive on the model, sampled on longer histories.',
     note='Names without file/directory clashes, bookmarks only (no tags), one workspace-less repo with an internal Git backend; concurrent processes are not modelled (each action is atomic). Commits that exist only in Git are created with gix in the object store. Trusted: TLC, the projection in harness/jjconf/src/bin/gitsync/sync.rs (refs read from ref files and confirmed by `git update-ref --stdin verify` at every step and by `git for-each-ref` per repository). Exact conflict shape is compared with the transcription of merge_ref_targets as divergence only.',
     design='4 C34',
 )
 READY = True
 LEVEL = META["category"]
 
-NEG = [("export_overwrites", "InvStep"), ("import_drops_deletion", "InvStep"), ("conflict_takes_git", "InvStep"),
+NEG = [("ff_shortcut", "InvStep"), ("export_overwrites", "InvStep"), ("import_drops_deletion", "InvStep"), ("conflict_takes_git", "InvStep"),
        ("reimport_resolves", "InvIdem"), ("export_silent", "InvConverge")]
+
+
+def scripted():
+    """Scenarios replayed at the start of every run (chain 1 <- 2 <- 3, fork 4): the bookmark is
+    synchronised at the MIDDLE commit; then one side moves it back to the ancestor and the other side
+    forward to the descendant (both ways round, synchronised via export or via import, plus deletions
+    and fork moves) and Import runs.  Only 'base <= v <= w' is a fast-forward; back-vs-forward must
+    become the conflict."""
+    par = [[], [1], [2], [1]]
+
+    def J(c):
+        return {"a": "JjSet", "b": 1, "c": c}
+
+    def G(c):
+        return {"a": "GitSet", "b": 1, "c": c}
+    JD, GD = {"a": "JjDelete", "b": 1, "c": 0}, {"a": "GitDelete", "b": 1, "c": 0}
+    I, E = {"a": "Import", "b": 0, "c": 0}, {"a": "Export", "b": 0, "c": 0}
+    tails = [[I], [I, E, I], [E, I, E]]
+    out = []
+    for sync in ([J(2), E], [G(2), I]):
+        for moves in ([J(1), G(3)], [G(3), J(1)], [G(1), J(3)], [J(3), G(1)],      # back vs forward: conflict
+                      [J(3), G(3)], [J(1), G(1)],                                  # the same move on both sides
+                      [J(3), G(4)], [J(4), G(3)], [J(1), G(4)],                    # fork
+                      [JD, G(3)], [J(3), GD], [J(1), GD], [JD, G(1)]):             # delete vs move
+            for t in tails:
+                out.append({"par": par, "gitonly": [], "nb": 1, "abandon": False, "scripted": True,
+                            "steps": sync + moves + t})
+    # the same races when the bookmark was never synchronised (base absent: two creations)
+    for moves in ([J(1), G(3)], [J(3), G(1)], [J(2), G(4)]):
+        out.append({"par": par, "gitonly": [], "nb": 1, "abandon": False, "scripted": True,
+                    "steps": moves + [I, E, I]})
+    return out
 
 
 def is_reset(line):
@@ -77,6 +109,9 @@ def nontrivial(r, pre):
 def run(ctx):
     # 1. design level, negative configs and the S->I generators: independent TLC runs, in parallel
     cfg = ctx.q("MC_GitSync", "MC_GitSync_thorough")
+    # quick's 2-bookmark model has a fork but no chain of three: the 1-bookmark chain+fork model adds it
+    r_chain = vf.tlc_mc("MC_GitSync", "MC_GitSync_chain", workers=2, timeout=600)
+    ctx.add_mc(r_chain, "MC_GitSync_chain")
     gens = ctx.q(["MC_GitSync_gen_all"], ["MC_GitSync_gen_all5", "MC_GitSync_gen_all2"])
     with ThreadPoolExecutor(max_workers=4) as ex:
         f_mc = ex.submit(vf.tlc_mc, "MC_GitSync", cfg, workers=ctx.q(6, 12), timeout=ctx.q(600, 2400))
@@ -90,12 +125,13 @@ def run(ctx):
         for bug, inv, f in f_neg:
             f.result()
             ctx.cov["tlc_runs"].append({"run": "negative:" + bug, "outcome": "fails as required (%s)" % inv})
-        behs = []
+        behs = scripted()
+        n_scripted = len(behs)
         for g, f in f_gen:
             b, gr = f.result()
             ctx.add_mc(gr, g)
             behs += maximal(b)
-        n_exh = len(behs)
+        n_exh = len(behs) - n_scripted
         b, gr = f_sim.result()
         ctx.add_mc(gr, "MC_GitSync_gen_sim")
         behs += maximal(b)
@@ -168,11 +204,12 @@ def run(ctx):
                     ctx.sample({"pre": pre, "step": x}, 4)
     ctx.cov["distinct_nontrivial"] = len(seen)
     ctx.cov["behaviours_replayed"] = n_replayed
+    ctx.cov["behaviours_scripted"] = n_scripted
     ctx.cov["behaviours_exhaustive_transitions"] = n_exh
     ctx.cov["random_histories"] = n_cases - n_replayed
     ctx.cov["exhaustive"] = True
     ctx.cov["exhaustive_domain"] = ("model: all reachable states, 2 bookmarks, %d commits (chain+fork, one Git-only); "
-                                    "binding: every transition of the 1-bookmark model up to depth %d%s" % (
+                                    "binding: scripted middle-of-chain races + every transition of the 1-bookmark model (chain of 3 + fork) up to depth %d%s" % (
                                         ctx.q(3, 4), ctx.q(5, 6), ctx.q("", " and of the 2-bookmark model up to depth 4")))
     ctx.cov["rule"] = ("steps = model actions executed on the real repository and judged by TLC; non-trivial = an Import where "
                        "some bookmark changed on both sides since the last synchronisation, or an Export with a bookmark whose "
